@@ -61,9 +61,9 @@ PROPS["C02"] = {
 }
 
 PROPS["C08"] = {
-    "tasks": lambda tier: [V(SC + ".__lt__#ordering"), ("lemma_c01_compose", {}), V("barril.units:value-objects#equality"), V(QM + ":Quantity#value-semantics"), V("barril.basic.fraction._fraction_value:FractionValue#amount")] + [("verify", {"fq": "barril.basic.fraction._fraction:Fraction#rational-arithmetic", "part": i, "nparts": 6}) for i in range(6)] + [("verify", {"fq": "barril.units._fraction_scalar:FractionScalar#like-a-scalar", "part": i, "nparts": 7}) for i in range(7)],
+    "tasks": lambda tier: [V(SC + ".__lt__#ordering"), ("lemma_c01_compose", {}), V("barril.units:value-objects#equality"), V("barril.units.unit_system:UnitSystem#equality"), V(QM + ":Quantity#value-semantics"), V("barril.basic.fraction._fraction_value:FractionValue#amount")] + [("verify", {"fq": "barril.basic.fraction._fraction:Fraction#rational-arithmetic", "part": i, "nparts": 6}) for i in range(6)] + [("verify", {"fq": "barril.units._fraction_scalar:FractionScalar#like-a-scalar", "part": i, "nparts": 7}) for i in range(7)],
     "level": "proof",
-    "level_text": "Ordering: Scalar <, <=, >, >= evaluated through Python's rich-comparison dispatch on the real __lt__/__le__/__gt__/__ge__ bodies are proved equal to the same operator on value(a) and conv(unit(b)->unit(a))(value(b)) for arbitrary registered units of one quantity type, TypeError for different quantity types; with the C01 monotonicity lemma this is the order of physical amounts. FractionScalar: the same for one unit (different units by composition with the GetValue contract), TypeError across quantity types. Equality: for Quantity, Scalar, Array (unbounded length), FixedArray, Fraction, FractionValue - x == y, y == x, x != y evaluated through Python's == dispatch (subclass-first rule included) never raise against each other or against None / int / str / tuple, are symmetric and reflexive, mean 'same class, same value(s), same quantity (and dimension)', and Quantity's hash is congruent with ==. Curve, UnitSystem and FractionScalar equality are replayed natively (probe equality) but not under contract.",
+    "level_text": "Ordering: Scalar <, <=, >, >= evaluated through Python's rich-comparison dispatch on the real __lt__/__le__/__gt__/__ge__ bodies are proved equal to the same operator on value(a) and conv(unit(b)->unit(a))(value(b)) for arbitrary registered units of one quantity type, TypeError for different quantity types; with the C01 monotonicity lemma this is the order of physical amounts. FractionScalar: the same for one unit (different units by composition with the GetValue contract), TypeError across quantity types. Equality: for Quantity, Scalar, Array (unbounded length), FixedArray, Fraction, FractionValue - x == y, y == x, x != y evaluated through Python's == dispatch (subclass-first rule included) never raise against each other or against None / int / str / tuple, are symmetric and reflexive, mean 'same class, same value(s), same quantity (and dimension)', and Quantity's hash is congruent with ==. UnitSystem == / != (same id, caption, mapping and read-only flag; total, symmetric; unequal to None / str / int) is under contract; Curve and FractionScalar equality are replayed natively (probe equality) but not under contract.",
     "level_note": "floats are reals; WF/QI assumed for inputs",
 }
 
@@ -83,9 +83,9 @@ PROPS["C03"] = {
     "trusted": ARITH_TRUSTED,
 }
 PROPS["C04"] = {
-    "tasks": lambda tier: VP(UDB + ":UnitDatabase.Multiply", 4) + VP(UDB + ":UnitDatabase.Divide", 5) + VP(UDB + ":UnitDatabase.FloorDivide", 5) + VP(OPS_KEY, 10) + VP("barril.units._array:Array._DoOperation#operators", 12) + [("lemma_arith", {}), V(UDB + ":UnitDatabase._ConvertMatchedValue")],
+    "tasks": lambda tier: VP(UDB + ":UnitDatabase.Multiply", 4) + VP(UDB + ":UnitDatabase.Divide", 5) + VP(UDB + ":UnitDatabase.FloorDivide", 5) + VP(OPS_KEY, 10) + VP("barril.units._array:Array._DoOperation#operators", 12) + [("lemma_arith", {}), V(UDB + ":UnitDatabase._ConvertMatchedValue"), V(SC + ".__pow__")],
     "level": "proof",
-    "level_text": "UnitDatabase.Multiply/Divide/FloorDivide and the Scalar operators *, /, // are verified against a functional contract for symbolic operand quantities (all names, units, unbounded integer exponents and values symbolic): the result's composing map is exactly the merged map (exponents added/subtracted per category, entries with zero exponent or zero joined exponent dropped), its exponent per quantity type is the sum/difference of the operands', no zero exponent survives, the value is v1 op v2 after matching; division by a zero amount raises. Log-domain lemmas (every re-expressed entry contributes e*(L(u)-L(m)), any exponent) over the contract give 'base magnitudes multiply/divide' and the dimension rule for every shape up to (2,2) (thorough (3,3)). An entry re-expressed with an exponent other than 1 scales by the unit ratio raised to that exponent (scale-only pairs; through the _ConvertWithExp contract) - the defect found here (exponent ignored) is repaired by f801d71. a**n is not yet under contract.",
+    "level_text": "UnitDatabase.Multiply/Divide/FloorDivide and the Scalar operators *, /, // are verified against a functional contract for symbolic operand quantities (all names, units, unbounded integer exponents and values symbolic): the result's composing map is exactly the merged map (exponents added/subtracted per category, entries with zero exponent or zero joined exponent dropped), its exponent per quantity type is the sum/difference of the operands', no zero exponent survives, the value is v1 op v2 after matching; division by a zero amount raises. Log-domain lemmas (every re-expressed entry contributes e*(L(u)-L(m)), any exponent) over the contract give 'base magnitudes multiply/divide' and the dimension rule for every shape up to (2,2) (thorough (3,3)). An entry re-expressed with an exponent other than 1 scales by the unit ratio raised to that exponent (scale-only pairs; through the _ConvertWithExp contract) - the defect found here (exponent ignored) is repaired by f801d71. Scalar ** n (n = 1..6, thorough ..9) is proved equal to the n-fold product built with the * operator (same composing map, caption and value).",
     "level_note": "shape-bounded as C03; preconditions N1 and normalised operands; floats are reals; a//b = floor of the real quotient",
     "trusted": ARITH_TRUSTED,
 }
@@ -164,18 +164,18 @@ PROPS["C11"] = {
     "trusted": STD_TRUSTED + ["pickle protocol (A8)", "numpy elementwise arithmetic (A5)"],
 }
 PROPS["C13"] = {
-    "tasks": lambda tier: [V(SC + ".GetAbstractValue"), V(AVQ + ".CreateCopy"), V(SC + ".__lt__#ordering"), V(AVQ + ".GetValidUnits"), V(QM + ":Quantity#value-semantics"), V(QM + ":Quantity.CheckValue"), V(QM + ":Quantity.ConvertScalarValue"), V(UDB + ":UnitDatabase.Convert"), V(UDB + ":UnitDatabase._ConvertMatchedValue")] + VP(FA + "#operations", 15) + VP(OPS_KEY, 10) + VP(AOPS_KEY, 12),
+    "tasks": lambda tier: [V(SC + ".GetAbstractValue"), V(AVQ + ".CreateCopy"), V(SC + ".__lt__#ordering"), V(AVQ + ".GetValidUnits"), V(QM + ":Quantity#value-semantics"), V(QM + ":Quantity.CheckValue"), V(QM + ":Quantity.ConvertScalarValue"), V(UDB + ":UnitDatabase.Convert"), V(UDB + ":UnitDatabase._ConvertMatchedValue")] + VP(FA + "#operations", 15) + VP(OPS_KEY, 10) + VP(AOPS_KEY, 12) + VP("barril.units._fraction_scalar:FractionScalar#like-a-scalar", 7),
     "level": "proof",
     "level_text": "Frame (modifies) obligations on every value-object operation under contract, with operand containers of symbolic unbounded length in region 'parameter': Scalar GetValue / CreateCopy / comparison / all ten arithmetic operators (incl. reflected and number operands), Array arithmetic for list-, tuple- and numpy-backed values (every write inside _DoOperation, _ValueGenerator and the database operations is checked to hit only objects allocated during the call), FixedArray CreateCopy / ChangingIndex / IndexAsScalar / __reduce__ / arithmetic, Quantity copy/eq/hash/reduce, UnitDatabase.Convert (results are new containers), CheckValue. Each proves: the receiver's and the other operand's fields are the same objects/values afterwards, the container contents are unchanged (array equality of the element maps), operand quantities are unchanged, results are new objects with new containers. CreateCopy() == self and reduce-rebuild == self are proved for Scalar-like simple/derived/empty quantities and FixedArray.",
-    "level_note": "FractionScalar operations and formatting (str/repr of Arrays) not yet under contract; numpy aliasing is modelled by container identity tokens; arithmetic shape-bounded as C03; floats are reals",
+    "level_note": "FractionScalar conversion / comparison / validation frames included (its formatting and the str/repr of Arrays are not under contract); numpy aliasing is modelled by container identity tokens; arithmetic shape-bounded as C03; floats are reals",
     "trusted": STD_TRUSTED + ["numpy elementwise arithmetic returns new arrays (A5)"],
 }
 
 PROPS["C20"] = {
-    "tasks": lambda tier: VP(QM + ":Quantity.__init__#derived-strings", 2 if tier == "quick" else 3) + [V(QM + ":Quantity.GetUnitName"), V(AVQ + ".GetFormattedSuffix"), V(SC + ".__repr__"), V(QM + ":Quantity.__init__")],
+    "tasks": lambda tier: VP(QM + ":Quantity.__init__#derived-strings", 3 if tier == "quick" else 4) + [V(QM + ":Quantity.GetUnitName"), V(AVQ + ".GetFormattedSuffix"), V(SC + ".__repr__"), V(QM + ":Quantity.__init__")],
     "level": "proof",
     "level_text": "Quantity.__init__ (derived branch) with _MakeStr, _CreateUnitsWithJoinedExponentsString and GetComposingUnitsJoiningExponents, and Quantity.GetUnitName, are executed from their real AST with a token-level string model (a string = sequence of literal text, symbolic names and symbolic integers; concatenation, f-strings, str(int), truthiness exact). For composing maps with symbolic category/unit names and symbolic non-zero integer exponents the resulting category, quantity-type, unit and unit-name strings are proved equal, token by token, to the rendering spec: factors joined per category / quantity type / unit / unit name, numerator factors separated by '.' (unit) or ' * ' (long forms), a single '/' (' / '), '1/' ('1 / ') for a pure reciprocal, exponent as suffix ('m2') or '(x) ** n', zero joined exponents omitted, on every sign / magnitude / name-coincidence path. The composing units/categories tuples mirror the map. Simple quantities store exactly their registered category, quantity type and resolved unit (Quantity.__init__ contract); Scalar.__repr__ and GetFormattedSuffix embed that unit. Complete per number of entries; bounded across it.",
-    "level_note": "number of composing entries: 1-2 (quick), 1-3 (thorough) - shape-bounded; exponents unbounded; 'parsing recovers the joined units' is an argument over the token sequences (separators and trailing digits do not occur in atomic symbols) replayed natively by the derived_strings probe for up to 3 factors, not a solver obligation; Array str/repr not under contract",
+    "level_note": "number of composing entries: 1-2 plus three entries sharing one unit symbol (quick), 1-3 (thorough) - shape-bounded; exponents unbounded; 'parsing recovers the joined units' is an argument over the token sequences (separators and trailing digits do not occur in atomic symbols) replayed natively by the derived_strings probe for up to 3 factors, not a solver obligation; Array str/repr not under contract",
     "trusted": ["pyvc token-level string model (pyvc/strparts.py)", "z3 5.1.0"],
 }
 
@@ -189,7 +189,7 @@ PROPS["C17"] = {
 }
 
 PROPS["C06"] = {
-    "tasks": lambda tier: [("table_c06", {"chunk": c, "nchunks": 7}) for c in range(7)] + [V(UDB + ":UnitDatabase._ConvertWithExp"), V(UDB + ":UnitDatabase.Convert#exponent-forms")],
+    "tasks": lambda tier: [("table_c06", {"chunk": c, "nchunks": 7}) for c in range(7)] + [V(UDB + ":UnitDatabase._ConvertWithExp"), V(UDB + ":UnitDatabase.Convert#exponent-forms"), V(SC + ".__pow__")],
     "level": "proof",
     "level_text": "Exhaustive over the shipped table: the coefficient tuples of all 1548 rows are read, as exact decimal text, from the real AST of posc.FillUnitDatabaseWithPosc on every run (and cross-checked, row by row, against the slope of the to-base closure the real code builds, executed by the interpreter). A unit symbol is decomposed by the table's own grammar (one '/', factors separated by '.', integer exponent suffixes, numeric prefixes such as 1000ft3, registered symbols as atoms; a registered 'X<e>' counts as a power of X only when named after X). For each of the ~970 decomposable rows the obligation factor(u) x c_T == product of the component factors (c_T: the same product for the quantity type's base symbol) is decided in exact rational arithmetic, and for each of the ~150 atomic rows named '<SI prefix><name of X>' the obligation factor == 10^(n.e) x factor(X); the tolerance is the precision the rows are written in (half a unit in the last written digit of every non-exact literal involved, floor 1e-9). Rows that genuinely disagree with their parts are recorded one by one as known findings (or repaired); any other row that starts to disagree - one digit in one tuple - fails its own named obligation with a native replay. The second reading of the property (a Scalar in the named unit vs the amount built from component Scalars) also needs the exponent-aware conversion that compares them: UnitDatabase._ConvertWithExp and the (unit, exponent) forms of UnitDatabase.Convert are under the power-law contract v [u**e] -> v * r**e [w**e] (proved of the real bodies for all v, all integer e != 0, scale-only pairs).",
     "level_note": "symbols with two or more '/' are written both for a/(b.c) and a/(b/c) in the table and are not read (ambiguous); affine units enter through their slope; the equivalence with 'a Scalar in the named unit equals the product/quotient of Scalars in the component units' goes through C04's magnitude lemma and is replayed natively by probe c06_row; ground arithmetic with Python Fractions (no solver)",
@@ -252,6 +252,12 @@ DEPS = {
     # the second reading of C06 builds the amount with Scalar * and /: the value clauses of Multiply / Divide and
     # of the matching step's re-expression carry it
     "C06": [(UDB + ":UnitDatabase._ConvertMatchedValue", 1, ["*/post?power/scaled*", "*/post?plain/*"], _NOTCONV, None), (UDB + ":UnitDatabase.Multiply", 4, ["*/post?result/*"], [], None), (UDB + ":UnitDatabase.Divide", 5, ["*/post?result/*", "*/post?division-by-zero?*"], [], None)],
+    # the value-object routes of a conversion go through the same closures as UnitDatabase.Convert
+    "C01": [(_CSV, 1, ["*/post?own-unit?*", "*/post?to:direct?*", "*/post?to:via-category?*"], [], None), (SC + ".GetAbstractValue", 1, ["*/post?*"], _NOTCONV, None)],
+    # unit conversion of Arrays (every container kind) against the Scalar / database conversion
+    "C10": [(_CV, 1, ["*/post?same-unit?*", "*/post?from:*"], _NOTCONV, None), ("barril.units._array:Array.GetAbstractValue", 1, ["*/post?*"], _NOTCONV, None)],
+    # "every registered unit and category can be used to build a valid Scalar": the limit check itself
+    "C14": [(QM + ":Quantity.CheckValue", 1, ["*/post?*"], [], None), (SC + ".CheckValidity", 1, ["*/post?*"], [], None)],
     "C15": [(fq, n, ["*/frame?*"], [], None) for fq, n in _DBOPS],
     "C16": DEP_LEGACY,
     "C17": DEP_CONV + DEP_OBTAIN,
